@@ -2,7 +2,7 @@
 from the current sources, and the basis matrices lambda_k they define.  Shared by C01, C02,
 C03, C06, C11, C13."""
 from astdb import AnalysisBroken
-from interp import Interp, Obj, Cell, Ptr, Region, Thrown, Unsupported, UNDEF
+from interp import Interp, Obj, Cell, Ptr, Region, Thrown, Unsupported, UNDEF, ITE
 from kernels import KernelHooks, make_suv, GslMatrix, SUV
 from poly import Poly, CPoly, mat_zero
 
@@ -19,8 +19,18 @@ def f_matrix_ctor(db):
                   lambda f: f['params'][0]['t'].startswith('const gsl_matrix_complex'))
 
 
+class HelperAbsent(Exception):
+    """an internal helper this analysis looks at directly is not part of the library any more"""
+
+
 def f_components_from_matrices(db):
-    return db.one('SUNalg', 'squids::(anonymous namespace)::ComponentsFromMatrices', 4)
+    # a file-local helper: its enclosing (unnamed) namespace is an implementation detail, and it may disappear
+    fs = [f for f in db.unit('SUNalg').functions if f['name'].split('<')[0].split('::')[-1] == 'ComponentsFromMatrices' and len(f['params']) == 4]
+    if not fs:
+        raise HelperAbsent('ComponentsFromMatrices')
+    if len(fs) > 1:
+        raise AnalysisBroken('several definitions of ComponentsFromMatrices')
+    return fs[0]
 
 
 def extract_S(db, d, prefix='c'):
@@ -35,6 +45,20 @@ def extract_S(db, d, prefix='c'):
     m = GslMatrix(d, d)
     it = Interp(unit, hooks)
     it.call(f, this, [m.ptr])
+    # entries that depend on the components through a data-dependent branch: the table is the value in a
+    # neighbourhood of a generic input of ordinary scale; the guarded form is kept for C01 (which holds the conversion
+    # to be one linear map for every input) and for the comparisons of the callers
+    m.guarded = {}
+    for rc, e in list(m.entries.items()):
+        if isinstance(e.re, ITE) or isinstance(e.im, ITE):
+            import guarded
+            from mpmath import mpf
+            point = {('v', '%s%d' % (prefix, k)): Poly.const(mpf(3 * k + 2) / 7 * (-1) ** k) for k in range(d * d)}
+            re, im = guarded.leaf_at(e.re, point), guarded.leaf_at(e.im, point)
+            if not isinstance(re, Poly) or not isinstance(im, Poly):
+                raise AnalysisBroken('S_%d: entry %s is guarded by a condition this analysis cannot evaluate: %s' % (d, rc, e))
+            m.guarded[rc] = e
+            m.entries[rc] = CPoly(re, im)
     _cache[key] = (m, hooks)
     return m, hooks
 
